@@ -224,6 +224,7 @@ type VGroup struct {
 	Schedule  []SchedEv         `json:"schedule,omitempty"`
 	Events    []string          `json:"events,omitempty"`
 	Resumes   []string          `json:"resumes,omitempty"`
+	Spin      bool              `json:"spin,omitempty"`
 	Now       string            `json:"now,omitempty"`
 }
 type FuncInfo struct {
@@ -241,6 +242,7 @@ type PathSample struct {
 	Schedule  []SchedEv         `json:"schedule,omitempty"`
 	Vector    []int             `json:"vector,omitempty"`
 	Resumes   []string          `json:"resumes,omitempty"`
+	Spin      bool              `json:"spin,omitempty"`
 }
 type Result struct {
 	Harness      string            `json:"harness"`
@@ -471,11 +473,11 @@ func (e *Engine) explore(fn *ssa.Function) *Result {
 						g := groups[sig]
 						if g == nil {
 							g = &VGroup{ID: v.ID, Site: v.Site, Detail: v.Detail, Decisions: append([]int(nil), w.taken...), Model: v.Model, AltModels: v.AltModels,
-								Chooses: w.chooseLog, Schedule: w.sched, Events: w.events, Now: v.Now, Resumes: w.resumes}
+								Chooses: w.chooseLog, Schedule: w.sched, Events: w.events, Now: v.Now, Resumes: w.resumes, Spin: w.yieldUnderLock}
 							groups[sig] = g
 						} else if len(w.taken) < len(g.Decisions) {
 							// prefer the shortest counterexample
-							g.Decisions, g.Model, g.Chooses, g.Schedule, g.Events, g.Detail, g.Now, g.Resumes = append([]int(nil), w.taken...), v.Model, w.chooseLog, w.sched, w.events, v.Detail, v.Now, w.resumes
+							g.Decisions, g.Model, g.Chooses, g.Schedule, g.Events, g.Detail, g.Now, g.Resumes, g.Spin = append([]int(nil), w.taken...), v.Model, w.chooseLog, w.sched, w.events, v.Detail, v.Now, w.resumes, w.yieldUnderLock
 						}
 						g.Count++
 					}
@@ -490,6 +492,7 @@ func (e *Engine) explore(fn *ssa.Function) *Result {
 							ps.Model = w.witnessModel
 							ps.Schedule = w.sched
 							ps.Resumes = w.resumes
+							ps.Spin = w.yieldUnderLock
 							ps.Vector = append([]int(nil), w.taken...)
 							for c := range w.covers {
 								witnessFor[c] = true
